@@ -671,6 +671,31 @@ impl Message<PartitionSyncResponse> for PartitionReplicatorActor {
     }
 }
 
+/// Verification hook: delivers a catch-up response to the replicator without a network
+/// (the real `PartitionSyncResponse` is private and produced by a remote ask).
+#[cfg(feature = "verif-hooks")]
+pub struct VerifSyncResponse(pub Vec<CommittedEvents>);
+
+#[cfg(feature = "verif-hooks")]
+impl Message<VerifSyncResponse> for PartitionReplicatorActor {
+    type Reply = ();
+
+    async fn handle(
+        &mut self,
+        VerifSyncResponse(commits): VerifSyncResponse,
+        ctx: &mut Context<Self, Self::Reply>,
+    ) -> Self::Reply {
+        Message::<PartitionSyncResponse>::handle(
+            self,
+            PartitionSyncResponse {
+                result: Ok(commits),
+            },
+            ctx,
+        )
+        .await
+    }
+}
+
 // #[cfg(test)]
 // mod tests {
 //     use std::{
